@@ -1,11 +1,17 @@
 (* C06 - routing returns the most specific matching pattern, params and group.
    Only statements; every proof is `exact <lemma of Mux/Proofs*.v>`.
-   Model: Mux/Model.v (the trie of mux.go + group.go), spec: Mux/Spec.v.
+   Model: Mux/Model.v (the trie of mux.go + group.go as of /repo de9a2b8), spec and the
+   definitions used below: Mux/Spec.v.
 
-   Proved in full for one Mux without mounts and ANY list of Handle / AddListener calls (the
-   panicking ones included).  For tries with mounted muxes the handler-identity half of
-   lookup_most_specific is proved for every trie (lookup_most_specific_any_trie_partial);
-   what is not proved for mounts is stated there. *)
+   Proved in full for ONE Mux (any path prefix, no mounts) and ANY list of Handle / AddListener
+   calls, the panicking ones included: fetch_spec, lookup_most_specific_flat,
+   params_exact_group_spec_flat, lookup_total_flat, registration_complete (fresh mux).
+   For tries with mounted muxes only the handler-identity half of lookup_most_specific is proved,
+   for every trie however built (lookup_most_specific_any_trie_partial); NOT proved for mounts:
+   that the registered patterns of the trie built by Mount/Route are the full patterns of the op
+   list, lookup_total, params/group through mount points (mi rebasing) and arrangement_invariant
+   (only arrangement_example, a computation).  Those are covered by the correspondence harness and
+   the oracle of Run/Run_C06.v. *)
 From Coq Require Import String.
 From GoRes Require Import Mux.Spec Mux.ProofsMatch Mux.ProofsFlat Mux.ProofsTop Mux.ProofsReg Mux.ProofsGroup Mux.ProofsPG.
 Open Scope N_scope.
